@@ -117,7 +117,7 @@ def run(ck, sj, progs, workdir, fmts=("sdl",)):
     return rules
 
 
-REQUIRED_RULES = ["unknownField", "subselectionOnLeaf", "noSubselectionOnComposite", "undefinedFragment",
+REQUIRED_RULES = ["unknownField", "subselectionOnLeaf", "subselectionOnTypename", "aliasedTypename", "noSubselectionOnComposite", "undefinedFragment",
                   "unknownTypeCondition", "unknownTypeConditionOnFragment", "impossibleTypeCondition",
                   "impossibleFragmentSpread", "typenameRemoved", "abstractSelectionWithoutTypename", "subscriptionSecondRoot",
                   "anonymousOperation", "bareSelectionSet", "noRootType"]
